@@ -266,8 +266,8 @@ def variants(spec):
     """configurations a random spec is built for (back11 cannot compile sm-internal tables; back with favor_compile_time
     cannot compile a machine that has both completion rows and an sm-internal table: compile-time limits, not properties)"""
     v = ["B", "BC", "M", "MA", "MC"]
-    if spec.get("serialize"):
-        return ["B", "BC"]      # Boost.Serialization is offered by back / back11 only
+    if spec.get("serialize"):       # Boost.Serialization is offered by back / back11 only
+        return ["B", "BC"] + (["B11"] if not any(M.get("internal") for M in spec["machines"]) else [])
     if any(":" in e for e in spec["events"] if isinstance(e, str)):
         return ["B", "M"]       # base-class and Kleene triggers: run-time-speed policies with flat_fold dispatch (C18 quantifier)
     if any("cond_defer" in st for M in spec["machines"] for st in M.get("state", {}).values()) or spec["name"].startswith("rand_dfm"):
